@@ -1,7 +1,7 @@
 """Shared machinery of the engines that run compiled corpus programs (sem, par, life):
 program selection, TLC input enumeration (SemGen), execution of cases on the corpus binaries,
 normalisation of the recorded events and trace validation by TLC (TraceSem)."""
-import json, os, subprocess, sys, time, random, concurrent.futures as cf
+import json, os, re, subprocess, sys, time, random, concurrent.futures as cf
 import vlib
 from vlib import ToolError, log
 
@@ -26,21 +26,63 @@ def build_corpus(shards, crates=None):
 
 
 # ------------------------------------------------------------------------------------------------ TLC: inputs
-def enumerate_inputs(progs, workdir, tier, workers=8, timeout=1500):
-    """Runs SemGen on the given programs. Returns (TlcResult, {prog name: [case dict(pi, inputs, lm)]})."""
+def enumerate_inputs(progs, workdir, tier, workers=8, timeout=1500, seminaive=False):
+    """Runs SemGen on the given programs. Returns (TlcResult, {prog name: [case dict(pi, inputs, lm)]}).
+    seminaive=True (always in the thorough tier) also checks SemiNaive.tla's evaluation strategy against the least
+    model on every enumerated database; the negative control (plan without the last version vector) must then fail."""
     os.makedirs(workdir, exist_ok=True)
     pf = os.path.join(workdir, "progs.json")
     with open(pf, "w") as f:
         json.dump(progs, f)
-    cfg = "SemGen_thorough.cfg" if tier == "thorough" else "SemGen.cfg"
-    res = vlib.run_tlc("SemGen", cfg, env={"PROGS": pf}, workers=workers, timeout=timeout, tags=("CASE",), xss=True)
+    cfg = "SemGen_thorough.cfg" if tier == "thorough" else ("SemGen_sn.cfg" if seminaive else "SemGen.cfg")
+    res = vlib.run_tlc("SemGen", cfg, env={"PROGS": pf}, workers=workers, timeout=timeout, tags=("CASE", "PLAN"), xss=True)
     vlib.tlc_ok(res, "SemGen")
     by = {}
-    for _, c in res.lines:
-        by.setdefault(c["prog"], []).append(c)
+    res.plans = {}
+    for tag, c in res.lines:
+        if tag == "PLAN":
+            res.plans[c["prog"]] = c["sccs"]
+        else:
+            by.setdefault(c["prog"], []).append(c)
     for name in by:
         by[name].sort(key=lambda c: json.dumps(c["inputs"], sort_keys=True))
+    res.seminaive_checked = cfg != "SemGen.cfg"
     return res, by
+
+
+def seminaive_negative_control(workdir):
+    """The plan with the last version vector dropped must violate SemiNaiveCorrect on corpus program lag_right."""
+    progs = [p for p in json.load(open(os.path.join(vlib.SPEC, "progs", "corpus.json"))) if p["name"] == "lag_right"]
+    pf = os.path.join(workdir, "progs_neg.json")
+    with open(pf, "w") as f:
+        json.dump(progs, f)
+    neg = vlib.run_tlc("SemGen", "SemGen_sn_broken.cfg", env={"PROGS": pf}, workers=4, timeout=600, tags=())
+    if neg.violated != "SemiNaiveCorrect":
+        raise ToolError(f"negative control failed: SemiNaive without the last version vector still computes the least model (violated={neg.violated})")
+    return "SemiNaive with DropLastVariant violates SemiNaiveCorrect on lag_right as expected"
+
+
+def parse_summary(text):
+    """`Program::summary()` -> list of dict(looping, dynamic, rules, variants)"""
+    sccs = []
+    for line in text.splitlines():
+        m = re.match(r"scc (\d+), is_looping: (true|false):", line)
+        if m:
+            sccs.append({"looping": m.group(2) == "true", "dynamic": [], "lines": []})
+        elif line.strip().startswith("dynamic relations:"):
+            sccs[-1]["dynamic"] = sorted(x.strip() for x in line.split(":", 1)[1].split(",") if x.strip())
+        elif line.strip() and sccs:
+            sccs[-1]["lines"].append(line.strip())
+    for s in sccs:
+        s["variants"] = len(s["lines"])
+    return sccs
+
+
+def plan_conforms(model_sccs, code_sccs):
+    """multiset comparison of (looping, dynamic relations, number of compiled rule variants) per SCC"""
+    a = sorted((bool(s["looping"]), tuple(sorted(s["dynamic"])), int(s["variants"])) for s in model_sccs)
+    b = sorted((bool(s["looping"]), tuple(sorted(s["dynamic"])), int(s["variants"])) for s in code_sccs)
+    return a == b, a, b
 
 
 # ------------------------------------------------------------------------------------------------ value decoding
